@@ -138,6 +138,33 @@ def mutations(h, sigma):
     return res
 
 
+BYTE_JUNK = (b"\xff", b"\x80", b"\xc3", b"\xe2\x82", b"\xc0\xaf", b"\xed\xa0\x80")
+
+
+def byte_mutations(h):
+    """mutants that exist only on the bytes level: byte strings that are not valid UTF-8 (a lone continuation or
+    lead byte, a cut-off sequence, an overlong form, an encoded surrogate) inserted at the start, at the end, around
+    every separator and in the middle of every field, and substituted for the first / last character of every
+    field.  [(label, bytes)] -- none of them is a re-encoding of anything"""
+    hb = h.encode("utf-8")
+    n = len(hb)
+    pos = {0, n}
+    bounds = [i for i, c in enumerate(hb) if c in b"$,:{}="]
+    for i in bounds:
+        pos |= {i, i + 1}
+    edges = [0] + [i + 1 for i in bounds] + [n]
+    for a, b in zip(edges, edges[1:]):
+        if b - a > 2:
+            pos.add((a + b) // 2)
+    out = []
+    for i in sorted(p for p in pos if 0 <= p <= n):
+        for j in BYTE_JUNK:
+            out.append((f"binsert@{i}:{j.hex()}", hb[:i] + j + hb[i:]))
+    for i in sorted(p for p in pos if 0 <= p < n):
+        out.append((f"bsub@{i}:ff", hb[:i] + b"\xff" + hb[i + 1 :]))
+    return out
+
+
 # ---------------------------------------------------------------------------
 # which mutants MAY verify (decided from the mutation, not from the parser under test)
 # ---------------------------------------------------------------------------
@@ -303,7 +330,7 @@ def probe(name, H, cx, seedhash, label, mutant, form, mode):
     """drive identify / verify / needs_update with one mutant; returns violations"""
     out = []
     arg = mutant
-    if form == "bytes":
+    if form == "bytes" and not isinstance(mutant, bytes):
         try:
             arg = mutant.encode("utf-8")
         except UnicodeEncodeError:
@@ -318,7 +345,7 @@ def probe(name, H, cx, seedhash, label, mutant, form, mode):
         out.append((pre + f"identify_raises:{type(e).__name__}:{kind}", f"identify({arg!r}) raised {e!r} [{label}]"))
     try:
         v = H.verify(PW, arg, **cx)
-        if v and not allowed_to_verify(name, seedhash, label, mutant):
+        if v and (isinstance(mutant, bytes) or not allowed_to_verify(name, seedhash, label, mutant)):
             out.append((pre + f"altered_verifies:{kind}", f"verify({PW!r}, {arg!r}) is True although the stored hash {seedhash!r} was altered [{label}]"))
     except OK_EXC:
         pass
@@ -365,7 +392,7 @@ def libpass_seed(name, si):
 def probe_libpass(name, H, seedhash, label, mutant, form, mode):
     out = []
     arg = mutant
-    if form == "bytes":
+    if form == "bytes" and not isinstance(mutant, bytes):
         try:
             arg = mutant.encode("utf-8")
         except UnicodeEncodeError:
@@ -384,7 +411,7 @@ def probe_libpass(name, H, seedhash, label, mutant, form, mode):
             continue
         if not isinstance(r, bool):
             out.append((pre + f"{op}_nonbool:{kind}", f"{op}({arg!r}) returned {r!r}"))
-        if op == "verify" and r and not allowed_to_verify(LIBPASS_BASE[name], seedhash, label, mutant):
+        if op == "verify" and r and (isinstance(mutant, bytes) or not allowed_to_verify(LIBPASS_BASE[name], seedhash, label, mutant)):
             out.append((pre + f"altered_verifies:{kind}", f"libpass {type(H).__name__}.verify({arg!r}, {PW!r}) is True although the stored hash {seedhash!r} was altered [{label}]"))
     return out
 
@@ -398,7 +425,7 @@ def eval_case(case):
         return eval_context_case(case)
     if name in LIBPASS:
         H, seedhash = libpass_seed(name, case["si"])
-        for label, mutant in mutations(seedhash, SIGMA_FULL):
+        for label, mutant in mutations(seedhash, SIGMA_FULL) + byte_mutations(seedhash):
             if label == case["label"]:
                 return probe_libpass(name, H, seedhash, label, mutant, case["form"], case.get("mode", "default"))
         return []
@@ -407,7 +434,7 @@ def eval_case(case):
     Hc = H.using(**st) if st else H
     with _pinned_rng():
         seedhash = Hc.hash(PW, **cx)
-    for label, mutant in mutations(seedhash, SIGMA_FULL):
+    for label, mutant in mutations(seedhash, SIGMA_FULL) + byte_mutations(seedhash):
         if label == case["label"]:
             return probe(name, H, cx, seedhash, label, mutant, case["form"], case.get("mode", "default"))
     return []
@@ -433,7 +460,7 @@ def eval_context_case(case):
     with _pinned_rng():
         seedhash = ctx.handler(scheme).hash(PW)
     mode = case.get("mode", "default")
-    for label, mutant in mutations(seedhash, SIGMA_FULL):
+    for label, mutant in mutations(seedhash, SIGMA_FULL) + byte_mutations(seedhash):
         if label == case["label"]:
             return probe_context(ctx, scheme, seedhash, label, mutant, case["form"], mode)
     return out
@@ -441,7 +468,7 @@ def eval_context_case(case):
 
 def probe_context(ctx, scheme, seedhash, label, mutant, form, mode):
     out = []
-    arg = mutant if form == "str" else mutant.encode("utf-8")
+    arg = mutant if (form == "str" or isinstance(mutant, bytes)) else mutant.encode("utf-8")
     kind = label.split("@")[0].split(":")[0]
     pre = f"C08|CryptContext:{scheme}|{mode}|"
     for op, f in (("identify", lambda: ctx.identify(arg)), ("needs_update", lambda: ctx.needs_update(arg)),
@@ -456,7 +483,7 @@ def probe_context(ctx, scheme, seedhash, label, mutant, form, mode):
         ok = r[0] if op == "verify_and_update" else r
         if op.startswith("verify") and ok:
             who = ctx.identify(arg)
-            if not allowed_to_verify(who or scheme, seedhash, label, mutant):
+            if isinstance(mutant, bytes) or not allowed_to_verify(who or scheme, seedhash, label, mutant):
                 out.append((pre + f"{op}_altered_verifies:{kind}", f"CryptContext.{op}({PW!r}, {arg!r}) succeeded although {seedhash!r} was altered [{label}]"))
     return out
 
@@ -478,8 +505,8 @@ def work(task):
         scheme = task["scheme"]
         with _pinned_rng():
             seedhash = ctx.handler(scheme).hash(PW)
-        for label, mutant in mutations(seedhash, sigma):
-            for form in forms:
+        for label, mutant in mutations(seedhash, sigma) + byte_mutations(seedhash):
+            for form in (("bytes",) if isinstance(mutant, bytes) else forms):
                 acc.evaluations += 1
                 vs = probe_context(ctx, scheme, seedhash, label, mutant, form, mode)
                 for key, desc in vs:
@@ -504,8 +531,9 @@ def work(task):
         k = task["stride"]
         muts = [m for n, m in enumerate(muts) if not m[0].startswith(("sub@", "ins@")) or n % k == 0]
     kinds = set()
-    for label, mutant in muts:
-        for form in forms:
+    bmuts = byte_mutations(seedhash) if "bytes" in forms else []
+    for label, mutant in muts + bmuts:
+        for form in (("bytes",) if isinstance(mutant, bytes) else forms):
             acc.evaluations += 1
             if lib:
                 vs = probe_libpass(name, H, seedhash, label, mutant, form, mode)
@@ -516,8 +544,8 @@ def work(task):
             for key, desc in vs:
                 acc.violation(key, desc, case)
         kinds.add(label.split("@")[0].split(":")[0])
-    acc.counters["mutants"] += len(muts) * len(forms)
-    acc.counters["distinct_mutants_bulk"] += len(muts) * len(forms)
+    acc.counters["mutants"] += len(muts) * len(forms) + len(bmuts)
+    acc.counters["distinct_mutants_bulk"] += len(muts) * len(forms) + len(bmuts)
     for k in kinds:
         acc.cls(name, task["si"], mode, k)
         acc.axis("mutation_kind", k)
